@@ -38,20 +38,43 @@ var verifHarnessDialect = &dialect.Dialect{
 	},
 }
 
-// a node with its private state set up as Initialize does, without endpoints and without goroutines
+// scripted endpoint for the provider loop
+type verifEndpoint struct {
+	one      bool
+	script   []int // per provide() call: 0 = a connection, 1 = errTerminated
+	calls    int
+	closed   int
+	provided []*verifRWC
+}
+
+func (e *verifEndpoint) Conf() EndpointConf      { return nil }
+func (e *verifEndpoint) isEndpoint()             {}
+func (e *verifEndpoint) close()                  { e.closed++ }
+func (e *verifEndpoint) oneChannelAtAtime() bool { return e.one }
+func (e *verifEndpoint) provide() (string, io.ReadWriteCloser, error) {
+	i := e.calls
+	e.calls++
+	if i >= len(e.script) || e.script[i] == 1 {
+		return "", nil, errTerminated
+	}
+	c := &verifRWC{}
+	e.provided = append(e.provided, c)
+	return "scripted", c, nil
+}
+
+
+type verifEndpointConf struct{ ep *verifEndpoint }
+
+func (c verifEndpointConf) init(*Node) (Endpoint, error) { return c.ep, nil }
+
+// a node initialised by the real Node.Initialize over a scripted endpoint that never provides a connection
+// (the goroutines Initialize starts are only recorded by the executor)
 func verifBareNode(version Version, sys, comp byte) *Node {
-	n := &Node{Dialect: verifHarnessDialect, OutVersion: version, OutSystemID: sys, OutComponentID: comp}
-	n.dialectRW = frame.VerifDialectRW()
-	n.channelProviders = make(map[*channelProvider]struct{})
-	n.channels = make(map[*Channel]struct{})
-	n.chNewChannel = make(chan *Channel)
-	n.chCloseChannel = make(chan *Channel)
-	n.chWriteTo = make(chan writeToReq)
-	n.chWriteAll = make(chan interface{})
-	n.chWriteExcept = make(chan writeExceptReq)
-	n.terminate = make(chan struct{})
-	n.chEvent = make(chan Event)
-	n.done = make(chan struct{})
+	n := &Node{Dialect: verifHarnessDialect, OutVersion: version, OutSystemID: sys, OutComponentID: comp,
+		Endpoints: []EndpointConf{verifEndpointConf{&verifEndpoint{one: true}}}}
+	if err := n.Initialize(); err != nil {
+		panic(err)
+	}
 	return n
 }
 
